@@ -51,7 +51,9 @@ def toml_of(cfg):
     lines = [f"{k} = {v}" for k, v in cfg["ints"]]
     for k, v in cfg["strs"]:
         lines.append(f"{k} = {v}" if k in UNQUOTED else f'{k} = "{v}"')
-    return "\n".join(lines) + "\n"
+    # a configuration file that sets nothing is written as a ZERO-BYTE file: still the nearest
+    # configuration, it resets every option to its default
+    return "\n".join(lines) + "\n" if lines else ""
 
 
 def scenario(rng):
